@@ -14,6 +14,10 @@ let handle line = match parse line with
   | [A "compat"; I n; g; e; r; I w; cr; o; pl] ->
       let opl = (match pl with A "none" -> None | l -> Some (nats l)) in
       (match is_compatible (model n g e r) (circ w cr o) opl with None -> A "ERR" | Some b -> vbool b)
+  | [A "compatph"; ph; I n; g; e; r; I w; cr; o; pl] ->
+      let opl = (match pl with A "none" -> None | l -> Some (nats l)) in
+      let phs = ints ph in
+      (match is_compatible_ph (fun g -> List.mem (int_of_nat g) phs) (model n g e r) (circ w cr o) opl with None -> A "ERR" | Some b -> vbool b)
   | [A "spec"; I n; g; e; r; I w; cr; o; pl] ->
       L [vbool (spec (model n g e r) (circ w cr o) (nats pl)); vbool (monotone_on (circ w cr o) (nats pl))]
   | [A "resp"; I n; g; e; r; I w; cr; o; loc; f] ->
